@@ -40,6 +40,9 @@ def check(ctx: Ctx) -> None:
     from .c20 import r5 as c20_r5
     c20_r5(ctx, "C05.R9")
     r_honoured(ctx, "C05.R10")
+    # the collector's handling of markers it cannot list / stat / read keeps protection in force (fail closed)
+    from .c07 import r1 as c07_r1
+    c07_r1(ctx, "C05.R11")
 
 
 def reach_sets(ctx: Ctx) -> Dict[str, str]:
